@@ -963,6 +963,61 @@ func c03edits() []c03edit {
 			}}
 			return true
 		}},
+		{"definition-named-items", true, func(d jm) bool {
+			// definition names are free as well
+			defs := jo(d["definitions"])
+			if defs == nil {
+				defs = jm{}
+				d["definitions"] = defs
+			}
+			defs["items"] = jm{"type": "object", "properties": jm{"x": jm{"type": "string"}}}
+			return true
+		}},
+		{"definition-named-properties", true, func(d jm) bool {
+			defs := jo(d["definitions"])
+			if defs == nil {
+				defs = jm{}
+				d["definitions"] = defs
+			}
+			defs["properties"] = jm{"type": "object", "properties": jm{"items": jm{"type": "string"}, "type": jm{"type": "string"}}}
+			return true
+		}},
+		{"named-things-called-items", true, func(d jm) bool {
+			// shared parameters / responses / security definitions are maps keyed by free names, and a
+			// vendor extension holds free-form data: a member called "items" (or "type") is not the keyword
+			d["parameters"] = jm{"items": jm{"name": "unusedq", "in": "query", "type": "string"}, "type": jm{"name": "unusedr", "in": "query", "type": "string"}}
+			d["responses"] = jm{"items": jm{"description": "unused"}}
+			d["securityDefinitions"] = jm{"items": jm{"type": "basic"}}
+			d["x-catalog"] = jm{"items": jl{"a", "b"}, "type": "list"}
+			if defs := jo(d["definitions"]); defs != nil {
+				for _, k := range jkeys(defs) {
+					if m := jo(defs[k]); m != nil {
+						m["x-ui"] = jm{"items": 3}
+						break
+					}
+				}
+			}
+			return true
+		}},
+		{"response-header-called-items", true, func(d jm) bool {
+			for _, o := range c03ops(d) {
+				for _, code := range jkeys(jo(o.op["responses"])) {
+					r := jo(jo(o.op["responses"])[code])
+					if r == nil || r["$ref"] != nil {
+						continue
+					}
+					h := jo(r["headers"])
+					if h == nil {
+						h = jm{}
+						r["headers"] = h
+					}
+					h["items"] = jm{"type": "integer"}
+					h["type"] = jm{"type": "string"}
+					return true
+				}
+			}
+			return false
+		}},
 		{"move-parameter-to-path-item", true, func(d jm) bool {
 			for _, o := range c03ops(d) {
 				l := ja(o.op["parameters"])
